@@ -826,3 +826,151 @@ Proof.
   pose proof (ud_from_loop cfg fl st s) as H. destruct (ud_urldecode_from cfg fl st s) as [[b g] t]. cbn [fst snd].
   exact (ud_loop_flags_mono _ _ _ _ _ _ _ _ _ _ _ H (ud_sub_refl fl)).
 Qed.
+
+(* ================================================================== E. token-level specification of the decoder
+   A greedy tokeniser (what construct starts at this position, and how many bytes it spans under the
+   configured handling), an interpretation of each token, and the theorem that the code-shaped loop is
+   "interpret the tokens in order, stop at a terminating NUL". From it: every flag is raised exactly
+   when a token of the corresponding kind occurs before the decoding stops (both directions). *)
+
+Inductive ud_tok :=
+| UtLit (c : N)                      (* any byte other than '%', '+', NUL *)
+| UtPlus
+| UtRawNul
+| UtPct (a b : N)                    (* '%' a b, both hexadecimal digits *)
+| UtPctU (h1 h2 h3 h4 : N)           (* '%' 'u'|'U' and four hexadecimal digits, %u decoding enabled *)
+| UtBadHex (a b : N)                 (* '%' and two more bytes that are not both hexadecimal digits *)
+| UtBadU (h1 h2 h3 h4 : N)           (* '%' 'u'|'U' and four more bytes that are not all hexadecimal digits *)
+| UtBadUShort                        (* '%' 'u'|'U' x with fewer than four bytes after the u *)
+| UtBadShort.                        (* '%' with fewer than two bytes after it *)
+
+(* which construct starts the string *)
+Definition ud_classify (cfg : dcfg) (s : bytes) : option ud_tok :=
+  match s with
+  | [] => None
+  | c :: r1 =>
+      if c =? ud_PCT then
+        match r1 with
+        | h1 :: h2 :: r3 =>
+            if (d_u_decode cfg) && ((h1 =? ud_LC_U) || (h1 =? ud_UC_U)) then
+              match r3 with
+              | h3 :: h4 :: h5 :: _ =>
+                  if c_isxdigit h2 && c_isxdigit h3 && c_isxdigit h4 && c_isxdigit h5
+                  then Some (UtPctU h2 h3 h4 h5) else Some (UtBadU h2 h3 h4 h5)
+              | _ => Some UtBadUShort
+              end
+            else if c_isxdigit h1 && c_isxdigit h2 then Some (UtPct h1 h2) else Some (UtBadHex h1 h2)
+        | _ => Some UtBadShort
+        end
+      else if c =? ud_PLUS then Some UtPlus
+      else if c =? 0 then Some UtRawNul
+      else Some (UtLit c)
+  end.
+
+(* how many input bytes the construct spans: a malformed escape is consumed whole only when it is
+   decoded anyway (PROCESS_INVALID); otherwise only its '%' is, and scanning resumes right after it *)
+Definition ud_tok_span (cfg : dcfg) (t : ud_tok) : nat :=
+  match t with
+  | UtLit _ | UtPlus | UtRawNul => 1
+  | UtPct _ _ => 3
+  | UtPctU _ _ _ _ => 6
+  | UtBadHex _ _ => match ud_handling_of cfg with UdProcess => 3 | _ => 1 end
+  | UtBadU _ _ _ _ => match ud_handling_of cfg with UdProcess => 6 | _ => 1 end
+  | UtBadUShort | UtBadShort => 1
+  end%nat.
+
+Fixpoint ud_lex (fuel : nat) (cfg : dcfg) (s : bytes) : list ud_tok :=
+  match fuel with
+  | O => []
+  | S fuel => match ud_classify cfg s with
+              | None => []
+              | Some t => t :: ud_lex fuel cfg (skipn (ud_tok_span cfg t) s)
+              end
+  end.
+
+(* the byte a malformed escape contributes *)
+Definition ud_bad_out (cfg : dcfg) (processed : option N) : option N :=
+  match ud_handling_of cfg with
+  | UdRemove => None
+  | UdPreserve => Some ud_PCT
+  | UdProcess => match processed with Some b => Some b | None => Some ud_PCT end
+  | UdNoCase => Some ud_PCT
+  end.
+
+(* the byte a token contributes (None: nothing is written) *)
+Definition ud_tok_out (cfg : dcfg) (t : ud_tok) : option N :=
+  match t with
+  | UtLit c => Some c
+  | UtPlus => Some (if d_plusspace cfg then 32 else ud_PLUS)
+  | UtRawNul => Some 0
+  | UtPct a b => Some (ud_x2c a b)
+  | UtPctU h1 h2 h3 h4 => Some (snd (ud_decode_u cfg 0 h1 h2 h3 h4))
+  | UtBadHex a b => ud_bad_out cfg (Some (ud_x2c a b))
+  | UtBadU h1 h2 h3 h4 => ud_bad_out cfg (Some (snd (ud_decode_u cfg 0 h1 h2 h3 h4)))
+  | UtBadUShort | UtBadShort => ud_bad_out cfg None
+  end.
+
+Definition ud_tok_is_bad (t : ud_tok) : bool :=
+  match t with UtBadHex _ _ | UtBadU _ _ _ _ | UtBadUShort | UtBadShort => true | _ => false end.
+Definition ud_tok_is_escape (t : ud_tok) : bool :=
+  match t with UtLit _ | UtPlus | UtRawNul => false | _ => true end.
+(* the token goes through decode_u_encoding_params *)
+Definition ud_tok_u_digits (cfg : dcfg) (t : ud_tok) : option (N * N * N * N) :=
+  match t with
+  | UtPctU h1 h2 h3 h4 => Some (h1, h2, h3, h4)
+  | UtBadU h1 h2 h3 h4 => match ud_handling_of cfg with UdProcess => Some (h1, h2, h3, h4) | _ => None end
+  | _ => None
+  end.
+Definition ud_tok_encoded_nul (cfg : dcfg) (t : ud_tok) : bool :=
+  ud_tok_is_escape t && match ud_tok_out cfg t with Some b => b =? 0 | None => false end.
+Definition ud_tok_overlong (cfg : dcfg) (t : ud_tok) : bool :=
+  match ud_tok_u_digits cfg t with Some (h1, h2, _, _) => ud_x2c h1 h2 =? 0 | None => false end.
+Definition ud_tok_halffull (cfg : dcfg) (t : ud_tok) : bool :=
+  match ud_tok_u_digits cfg t with
+  | Some (h1, h2, h3, h4) => negb (ud_x2c h1 h2 =? 0) && (ud_x2c h1 h2 =? 255) && (ud_x2c h3 h4 <=? 239)
+  | None => false
+  end.
+Definition ud_tok_is_u (t : ud_tok) : bool :=
+  match t with UtPctU _ _ _ _ | UtBadU _ _ _ _ | UtBadUShort => true | _ => false end.
+
+(* decoding stops at this token (its byte is not written) *)
+Definition ud_tok_stops (cfg : dcfg) (t : ud_tok) : bool :=
+  match t with
+  | UtRawNul => d_nul_raw_term cfg
+  | _ => ud_tok_encoded_nul cfg t && d_nul_enc_term cfg
+  end.
+
+Definition ud_bflag (b : bool) (f : N) : N := if b then f else 0.
+
+(* the flags one token raises *)
+Definition ud_tok_flags (cfg : dcfg) (t : ud_tok) : N :=
+  N.lor (ud_bflag (ud_tok_is_bad t) c_HTP_URLEN_INVALID_ENCODING)
+ (N.lor (ud_bflag (ud_tok_overlong cfg t) c_HTP_URLEN_OVERLONG_U)
+ (N.lor (ud_bflag (ud_tok_halffull cfg t) c_HTP_URLEN_HALF_FULL_RANGE)
+ (N.lor (ud_bflag (ud_tok_encoded_nul cfg t) c_HTP_URLEN_ENCODED_NUL)
+        (ud_bflag (match t with UtRawNul => true | _ => false end) c_HTP_URLEN_RAW_NUL)))).
+
+(* the expected-status writes of one token, in code order *)
+Definition ud_tok_status (cfg : dcfg) (st : Z) (t : ud_tok) : Z :=
+  let st := if ud_tok_is_u t then ud_unwanted st (d_u_unwanted cfg) else st in
+  let st := if ud_tok_is_bad t then ud_unwanted st (d_inv_unwanted cfg) else st in
+  let st := if ud_tok_encoded_nul cfg t then ud_unwanted st (d_nul_enc_unwanted cfg) else st in
+  match t with UtRawNul => ud_unwanted st (d_nul_raw_unwanted cfg) | _ => st end.
+
+(* interpret the tokens in order; stop at a terminating NUL *)
+Fixpoint ud_eval (cfg : dcfg) (fl : N) (st : Z) (out : bytes) (ts : list ud_tok) : bytes * N * Z :=
+  match ts with
+  | [] => (rev out, fl, st)
+  | t :: ts =>
+      let fl := N.lor fl (ud_tok_flags cfg t) in
+      let st := ud_tok_status cfg st t in
+      if ud_tok_stops cfg t then (rev out, fl, st)
+      else ud_eval cfg fl st (match ud_tok_out cfg t with Some b => b :: out | None => out end) ts
+  end.
+
+(* the tokens that are interpreted: up to and including the first one that stops the decoding *)
+Fixpoint ud_live (cfg : dcfg) (ts : list ud_tok) : list ud_tok :=
+  match ts with
+  | [] => []
+  | t :: ts => if ud_tok_stops cfg t then [t] else t :: ud_live cfg ts
+  end.
